@@ -1,18 +1,29 @@
 #!/bin/bash
 # Runs, for every kept seeded change under /verif/seeded/, the check of its own property (quick tier)
-# against /repo with the change applied, and writes seeded/RESULTS.md. /repo must be clean.
+# with the change applied, and writes seeded/RESULTS.md.
+#   default     : against /repo itself (must be clean; each patch is applied and reverted)
+#   USE_MUT=1   : against the scratch copy /tmp/repo_mut + /tmp/verif_mut (a git worktree of /repo and
+#                 an rsync copy of /verif), so that /repo stays untouched while something else uses it
 cd "$(dirname "$0")/.."
-[ -z "$(git -C /repo status --porcelain)" ] || { echo "/repo is not clean"; exit 4; }
-trap 'git -C /repo checkout -- . 2>/dev/null' EXIT
-out=seeded/RESULTS.md
+VERIF=$PWD
+if [ -n "${USE_MUT:-}" ]; then
+  REPO=/tmp/repo_mut; RUN=/tmp/verif_mut
+  rsync -a --delete --exclude harness/target --exclude .git --exclude replays --exclude evidence --exclude harness/Cargo.toml $VERIF/ $RUN/
+else
+  REPO=/repo; RUN=$VERIF
+fi
+[ -z "$(git -C $REPO status --porcelain)" ] || { echo "$REPO is not clean"; exit 4; }
+trap 'git -C $REPO checkout -- . 2>/dev/null' EXIT
+out=$VERIF/seeded/RESULTS.md
 echo "| seeded change | property | own check (quick) | first violation line |" > $out
 echo "|---|---|---|---|" >> $out
-for d in seeded/C*/; do
+for d in $VERIF/seeded/C*/; do
   name=$(basename $d); prop=${name:0:3}
-  git -C /repo apply "$PWD/$d/patch.diff" || { echo "| $name | $prop | PATCH FAILED | |" >> $out; continue; }
-  o=$(./check $prop --tier quick 2>&1); rc=$?
-  git -C /repo checkout -- .
-  line=$(echo "$o" | grep -vE "^\[C|^VIOLATION|^KNOWN|^MACHINERY" | head -1 | cut -c1-160 | tr '|' '/')
+  case "$name" in *rejected*) echo "| $name | $prop | (rejected, not a kept change) | |" >> $out; continue;; esac
+  git -C $REPO apply "$d/patch.diff" || { echo "| $name | $prop | PATCH FAILED | |" >> $out; continue; }
+  o=$(cd $RUN && ./check $prop --tier quick 2>&1); rc=$?
+  git -C $REPO checkout -- .
+  line=$(echo "$o" | grep -vE "^\[C|^VIOLATION|^KNOWN|^MACHINERY|^$|panicked at" | head -1 | cut -c1-160 | tr '|' '/')
   v="MISSED (exit $rc)"; [ $rc -eq 1 ] && v="caught (exit 1)"
   echo "| $name | $prop | $v | $line |" >> $out
   echo "$name $v"
